@@ -105,7 +105,7 @@ def coq_project():
     return rel
 
 
-def coq_make(targets, timeout=1500):
+def coq_make(targets, timeout=700):
     """full .vo build of the given targets (relative .vo paths); returns (ok, log)"""
     coq_project()
     rc, out, dt = sh(["make", "-j%d" % NCPU, "-k"] + list(targets), cwd=COQ, timeout=timeout)
